@@ -340,13 +340,15 @@ def toFate : StepResult → Pipeline.Fate
   | .rejected => .reject
   | .panic => .die
 
-/-- The three outcomes of `step` are the three `finish` moves of the pipeline model: merged,
-rejected (worker idle again), lost with the worker dead. -/
-theorem C20_step_is_pipeline_finish (fate : Pipeline.Item → Pipeline.Fate) (s : Pipeline.State)
+/-- The three outcomes of `step` are the three outcomes of the `parsed` move of the pipeline model:
+the worker holds the parsed batch (it goes into the result map under the mutex next: `lock`,
+`mergeEntry`, `unlock`), the item is rejected (worker idle again), the item is lost with the
+worker dead. -/
+theorem C20_step_is_pipeline_parsed (fate : Pipeline.Item → Pipeline.Fate) (s : Pipeline.State)
     (w : Nat) (x : Pipeline.Item) (r : StepResult)
     (hw : s.workers.getD w .exited = .holding x) (hf : fate x = toFate r) :
-    let s' := Pipeline.step fate s (.finish w)
-    (∀ rs, r = .results rs → s'.merged = s.merged ++ [x] ∧ s'.workers = s.workers.set w .idle) ∧
+    let s' := Pipeline.step fate s (.parsed w)
+    (∀ rs, r = .results rs → s'.workers = s.workers.set w (.batch x) ∧ s'.merged = s.merged) ∧
     (r = .rejected → s'.rejected = s.rejected ++ [x] ∧ s'.merged = s.merged ∧ s'.workers = s.workers.set w .idle) ∧
     (r = .panic → s'.lost = s.lost ++ [x] ∧ s'.merged = s.merged ∧ s'.workers = s.workers.set w .dead) := by
   cases r <;> simp_all [Pipeline.step, toFate]
